@@ -353,6 +353,25 @@ def options(ctx, sg, lim):
                   {'num_steps_option': given, 'check_num_steps': check, 'num_extrap': extrap, 'min_num_steps': mn,
                    'generated_count': got}, 'count = %s' % want, 'num_steps=%s/check=%s/extrap=%d' % (given, check, extrap),
                   key='num-steps-option')
+    # the same options given to MaxStepGenerator are honoured there too (its own defaults apply only where the caller says nothing)
+    Max = I.get_global('step_generators', 'MaxStepGenerator')
+    EPS = Poly.sym('EPS')
+    for extrap, scale in ((0, 3), (4, Fr(5, 2))):
+        g = Max(base_step=None, num_steps=None, num_extrap=extrap, scale=scale, step_nom=1)
+        sgf = I.getattr(g, 'step_generator_function')(x, 'forward', 3, 4)
+        mn = I.getattr(g, 'min_num_steps')
+        got_n, got_b = sgf.attrs['num_steps'], I.getattr(g, 'base_step')
+        rep.check(got_n == mn + extrap and same(got_b, EPS ** (Fr(1) / scale)), 'R-OPTIONS', 'step_generators.MaxStepGenerator.__init__',
+                  sg.relpath, {'num_extrap': extrap, 'scale': str(scale), 'min_num_steps': mn, 'generated_count': got_n,
+                               'base_step': repr(got_b)[:80]},
+                  'count = min_num_steps + num_extrap, base step = EPS ** (1/scale)', 'MaxStepGenerator(num_extrap=%d, scale=%s)' % (extrap, scale),
+                  key='max-options')
+    for flag in (True, False):
+        g = Max(base_step=b, step_ratio=r, num_steps=4, use_exact_steps=flag, step_nom=1)
+        sgf = I.getattr(g, 'step_generator_function')(x, 'forward', 1, 2)
+        rep.check(bool(I.getattr(g, 'use_exact_steps')) is flag, 'R-OPTIONS', 'step_generators.MaxStepGenerator.__init__', sg.relpath,
+                  {'use_exact_steps_given': flag, 'stored': repr(I.getattr(g, 'use_exact_steps'))},
+                  'the option given by the caller is the one in force', 'MaxStepGenerator(use_exact_steps=%s)' % flag, key='max-options')
     # path
     g = C(step_ratio=r, path='radial', dtheta=Poly.sym('dtheta'))
     rep.check(same(I.getattr(g, 'step_ratio'), r), 'R-OPTIONS', 'limits.CStepGenerator.step_ratio', lim.relpath,
